@@ -51,3 +51,11 @@ CORPUS += [
     M("assert-on-command-length", L, "        # Compute total length\n", "        assert len(command) < 200\n"),
     M("n-assert-block-multiple", L, "        # Compute total length\n", "        assert len(encrypted_payload) > 0 and len(encrypted_payload) % 16 == 0\n", "S"),
 ]
+# round 7 (C02.f): what is written on a V2 connection is that encoding of the frame, handed unmodified to the transport
+CORPUS += [
+    M("raw-frame-written", L, "            self._protocol.write(packet)", "            self._protocol.write(data)"),
+    M("transport-write-dropped", L, "        _LOGGER.debug(\"Sending data to %s: %s\", self.peer, data.hex())\n        self._transport.write(data)", "        _LOGGER.debug(\"Sending data to %s: %s\", self.peer, data.hex())"),
+    M("transport-guard-inverted", L, "        if self._transport is None:\n            raise IOError()  # TODO better\n\n        if not self.alive:", "        if self._transport is not None:\n            raise IOError()  # TODO better\n\n        if not self.alive:"),
+    M("n-encode-keyword-only", L, "    def encode(cls, device_id: int, command: bytes) -> bytes:", "    def encode(cls, command: bytes, *, device_id: int) -> bytes:", "S",
+      also=[(L, "        packet = _Packet.encode(self._device_id, data)", "        packet = _Packet.encode(data, device_id=self._device_id)")]),
+]
